@@ -61,6 +61,11 @@ Definition ser (fs : list rfield) : bytes := concat (map ser_one fs).
 Definition take_n (n : nat) (b : bytes) : option (bytes * bytes) :=
   if Nat.leb n (length b) then Some (firstn n b, skipn n b) else None.
 
+(* a length prefix: compared as a number first, so that an absurd length never
+   becomes a unary nat *)
+Definition take_len (l : N) (b : bytes) : option (bytes * bytes) :=
+  if l <=? N.of_nat (length b) then take_n (N.to_nat l) b else None.
+
 Definition parse_tag (b : bytes) : option (N * N * bytes) :=
   match varint_dec b with
   | Some (t, r) =>
@@ -88,7 +93,7 @@ Fixpoint skip_group (fuel : nat) (gnum : N) (b : bytes) : option bytes :=
           else if wt =? 2 then
             match varint_dec r with
             | Some (l, r') =>
-                match take_n (N.to_nat l) r' with Some (_, r'') => skip_group f gnum r'' | None => None end
+                match take_len l r' with Some (_, r'') => skip_group f gnum r'' | None => None end
             | None => None
             end
           else if wt =? 3 then
@@ -106,7 +111,7 @@ Definition parse_one (b : bytes) : option (rfield * bytes) :=
       else if wt =? 2 then
         match varint_dec r with
         | Some (l, r') =>
-            match take_n (N.to_nat l) r' with Some (p, r'') => Some ((num, RLen p), r'') | None => None end
+            match take_len l r' with Some (p, r'') => Some ((num, RLen p), r'') | None => None end
         | None => None
         end
       else if wt =? 1 then
